@@ -5,6 +5,7 @@ import Rangers.Model.Ledger
 Line-protocol driver for C06 (ledger conservation).
 
   reset
+  cfg <height> <p002> <p015> <p017> <p018> <p026> <p027> <label>   fork flags (as the code reports them) and base height
   univ <addr>*                         addresses whose balances every `exec` answer lists
   set <addr> <dec>                     AccountDB.SetBalance
   init <id> <script>                   creation-code behaviour, referenced by `cr:<val>:<id>` and `tx ct`
@@ -184,6 +185,12 @@ def showState (ds : DS) : String :=
 def step (ds : DS) (line : String) : DS × String :=
   match splitWords line with
   | ["reset"] => (initDS, "ok")
+  | ["cfg", h, a, b, c, d, e, f, _] =>
+    match nat? h, bool? a, bool? b, bool? c, bool? d, bool? e, bool? f with
+    | some h, some a, some b, some c, some d, some e, some f =>
+      ({ ds with height := h,
+                 w := { ds.w with fl := { p002 := a, p015 := b, p017 := c, p018 := d, p026 := e, p027 := f } } }, "ok")
+    | _, _, _, _, _, _, _ => (ds, "bad-op")
   | "univ" :: as =>
     match as.mapM addr? with
     | some l => ({ ds with univ := l }, "ok")
